@@ -347,6 +347,74 @@ def opDiscovery (j : Json) : Except String Json := do
     ("log", Json.arr (r.log.map (fun e => Json.arr #[Json.num (JsonNumber.fromNat e.1), Json.bool e.2])).toArray),
     ("queries", Json.num (JsonNumber.fromNat r.queries)), ("ok", Json.bool r.ok)]
 
+/-! #### C01 content hashes -/
+
+def getNames (j : Json) : Except String (List String) := do
+  (← getArr j "names").toList.mapM (fun x => x.getStr?)
+
+def getChunks (j : Json) (k : String) : Except String (List Bytes) := do
+  (← getArr j k).toList.mapM (fun x => do let s ← x.getStr?; unhexStr s)
+
+def jMH (h : Hash.Heap) (m : Hash.MH) : Json :=
+  Json.mkObj [
+    ("fed", Json.mkObj (m.state.map (fun e =>
+      (e.1, match Hash.fedOf h m e.1 with | some b => jB b | none => Json.null)))),
+    ("base", Json.mkObj (m.state.map (fun e => (e.1, Json.str (Hash.baseName e.1))))),
+    ("length", match m.length with | some n => Json.num (JsonNumber.fromNat n) | none => Json.null),
+    ("keys", Json.arr ((Hash.keys m).map Json.str).toArray)]
+
+def opMhFromData (j : Json) : Except String Json := do
+  let data ← getB j "data"
+  let names ← getNames j
+  match Hash.fromData [] data names with
+  | .ok (h, m) => pure <| Json.mkObj [("ok", jMH h m)]
+  | .error e => pure <| Json.mkObj [("err", jErr e)]
+
+def opMhStream (j : Json) : Except String Json := do
+  let names ← getNames j
+  let len ← getNOpt j "length"
+  let chunks ← getChunks j "chunks"
+  let asFile ← match j.getObjVal? "as_file" with | .ok (Json.bool b) => pure b | _ => pure false
+  match Hash.mkMH [] names len with
+  | .error e => pure <| Json.mkObj [("err", jErr e)]
+  | .ok (h, m) =>
+    let r := if asFile then Hash.fromReads h m chunks
+             else chunks.foldl (fun s c => Hash.update s.1 s.2 c) (h, m)
+    pure <| Json.mkObj [("ok", jMH r.1 r.2)]
+
+def opMhCopy (j : Json) : Except String Json := do
+  let names ← getNames j
+  let len ← getNOpt j "length"
+  let before ← getChunks j "before"
+  let ops ← (← getArr j "ops").toList.mapM (fun o => do
+    let a ← o.getArr?
+    if a.size != 2 then throw "bad op"
+    let who ← a[0]!.getBool?
+    let s ← a[1]!.getStr?
+    let b ← unhexStr s
+    pure (who, b))
+  match Hash.mkMH [] names len with
+  | .error e => pure <| Json.mkObj [("err", jErr e)]
+  | .ok (h, m) =>
+    let r0 := before.foldl (fun s c => Hash.update s.1 s.2 c) (h, m)
+    let hc := Hash.copy r0.1 r0.2
+    let r := Hash.runOps hc.1 r0.2 hc.2 ops
+    pure <| Json.mkObj [("orig", jMH r.1 r.2.1), ("copy", jMH r.1 r.2.2)]
+
+/-! #### C19 repairing duplicated entries -/
+
+def jEntry (e : Entry) : Json :=
+  Json.mkObj [("name", jB e.name),
+    ("type", Json.str (match e.type with | .file => "file" | .dir => "dir" | .rev => "rev")),
+    ("perms", Json.num (JsonNumber.fromNat e.perms)), ("target", jB e.target)]
+
+def opDedup (j : Json) : Except String Json := do
+  let es ← (← getArr j "entries").toList.mapM parseEntry
+  let r := fromPossiblyDuplicated es
+  pure <| Json.mkObj [("flag", Json.bool r.flag), ("entries", Json.arr (r.entries.map jEntry).toArray),
+    ("raw_manifest", jBOpt r.rawManifest),
+    ("id_manifest", jB (match r.rawManifest with | some m => m | none => dirManifest r.entries))]
+
 def dispatch (op : String) (j : Json) : Except String Json :=
   match op with
   | "ping" => pure (Json.mkObj [("pong", Json.bool true)])
@@ -370,6 +438,10 @@ def dispatch (op : String) (j : Json) : Except String Json :=
   | "rem_manifest" => opRemManifest j
   | "rem_parse" => opRemParse j
   | "discovery" => opDiscovery j
+  | "mh_from_data" => opMhFromData j
+  | "mh_stream" => opMhStream j
+  | "mh_copy" => opMhCopy j
+  | "dedup" => opDedup j
   | _ => throw s!"unknown op {op}"
 
 def handleLine (line : String) : String :=
